@@ -70,6 +70,9 @@ pub struct World {
     pub probes: BTreeMap<String, u64>,
     /// turnstile active => every op is a yield point
     pub yield_on_op: bool,
+    /// capture the SDK call site (backtrace) when the fault fires
+    pub capture_site: bool,
+    pub site: Option<String>,
 }
 
 pub type WorldRef = Arc<Mutex<World>>;
@@ -141,6 +144,14 @@ impl SimStream {
             } else if !already && w.plan.fail_at == Some(k) {
                 let ph = w.phase.clone();
                 w.fired = Some((k, kind, self.id, ph));
+                if w.capture_site {
+                    w.site = Some(site_from_backtrace(
+                        &std::backtrace::Backtrace::force_capture().to_string(),
+                    ));
+                }
+                if std::env::var_os("VERIF_BT").is_some() {
+                    eprintln!("FAULT at op {k} {kind:?}\n{}", std::backtrace::Backtrace::force_capture());
+                }
                 Err(sim_err(w.plan.interrupted))
             } else {
                 let mut lim = w.plan.max_chunk;
@@ -207,6 +218,11 @@ impl Write for SimStream {
                             let ph = w.phase.clone();
                             let k = w.seq - 1;
                             w.fired = Some((k, OpKind::Write, self.id, ph));
+                            if w.capture_site {
+                                w.site = Some(site_from_backtrace(
+                                    &std::backtrace::Backtrace::force_capture().to_string(),
+                                ));
+                            }
                         }
                         return Err(io::Error::new(
                             io::ErrorKind::StorageFull,
@@ -298,5 +314,48 @@ pub fn set_phase(w: &WorldRef, phase: &str) {
     let mut w = w.lock().unwrap_or_else(|e| e.into_inner());
     if w.phase != phase {
         w.phase = phase.to_string();
+    }
+}
+
+/// Innermost frames of the real SDK in a backtrace: "a::b<c::d<e::f" (last two path segments
+/// of up to three `c2pa::` frames, innermost first).  Names the call site that met the fault.
+pub fn site_from_backtrace(bt: &str) -> String {
+    let mut frames: Vec<String> = Vec::new();
+    for line in bt.lines() {
+        let l = line.trim();
+        let Some((num, sym)) = l.split_once(": ") else { continue };
+        if num.parse::<u32>().is_err() {
+            continue;
+        }
+        let sym = sym.trim_start_matches('<');
+        if !(sym.starts_with("c2pa::") || sym.starts_with("c2pa_c")) {
+            continue;
+        }
+        // drop generic parameters and closure markers
+        let mut clean = String::new();
+        let mut depth = 0;
+        for ch in sym.chars() {
+            match ch {
+                '<' => depth += 1,
+                '>' => depth -= 1,
+                _ if depth == 0 => clean.push(ch),
+                _ => {}
+            }
+        }
+        let clean = clean.replace("::{{closure}}", "").replace(" as ", "");
+        let parts: Vec<&str> = clean.split("::").filter(|p| !p.is_empty()).collect();
+        let n = parts.len();
+        let short = if n >= 2 { format!("{}::{}", parts[n - 2], parts[n - 1]) } else { clean.clone() };
+        if frames.last() != Some(&short) {
+            frames.push(short);
+        }
+        if frames.len() == 3 {
+            break;
+        }
+    }
+    if frames.is_empty() {
+        "unknown".into()
+    } else {
+        frames.join("<")
     }
 }
